@@ -444,6 +444,19 @@ impl PacketTrait for SecretSubkey {
 }
 
 impl SecretKey {
+    /// Recompute the stored packet header after the secret parameters (and with them the body
+    /// length) changed.
+    fn refresh_packet_header(&mut self) -> Result<()> {
+        let len = crate::ser::Serialize::write_len(&self.details)
+            + self.secret_params.write_len(self.details.version());
+        self.packet_header = PacketHeader::from_parts(
+            self.packet_header.version(),
+            self.packet_header.tag(),
+            crate::types::PacketLength::Fixed(len.try_into()?),
+        )?;
+        Ok(())
+    }
+
     /// Remove the password protection of the private key material in this secret key packet.
     /// This permanently "unlocks" the secret key material.
     ///
@@ -454,6 +467,7 @@ impl SecretKey {
         if let SecretParams::Encrypted(enc) = &self.secret_params {
             let unlocked = enc.unlock(password, &self.details, Some(self.packet_header.tag()))?;
             self.secret_params = SecretParams::Plain(unlocked);
+            self.refresh_packet_header()?;
         }
 
         Ok(())
@@ -499,12 +513,26 @@ impl SecretKey {
             &self.details,
             Some(self.packet_header.tag()),
         )?);
+        self.refresh_packet_header()?;
 
         Ok(())
     }
 }
 
 impl SecretSubkey {
+    /// Recompute the stored packet header after the secret parameters (and with them the body
+    /// length) changed.
+    fn refresh_packet_header(&mut self) -> Result<()> {
+        let len = crate::ser::Serialize::write_len(&self.details)
+            + self.secret_params.write_len(self.details.version());
+        self.packet_header = PacketHeader::from_parts(
+            self.packet_header.version(),
+            self.packet_header.tag(),
+            crate::types::PacketLength::Fixed(len.try_into()?),
+        )?;
+        Ok(())
+    }
+
     /// Remove the password protection of the private key material in this secret key packet.
     /// This permanently "unlocks" the secret key material.
     ///
@@ -515,6 +543,7 @@ impl SecretSubkey {
         if let SecretParams::Encrypted(enc) = &self.secret_params {
             let unlocked = enc.unlock(password, &self.details, Some(self.packet_header.tag()))?;
             self.secret_params = SecretParams::Plain(unlocked);
+            self.refresh_packet_header()?;
         }
 
         Ok(())
@@ -558,6 +587,7 @@ impl SecretSubkey {
             &self.details,
             Some(self.packet_header.tag()),
         )?);
+        self.refresh_packet_header()?;
 
         Ok(())
     }
